@@ -74,7 +74,7 @@ func c09Check(c *core.Ctx, s fScenario) {
 
 func c09CheckInst(c *core.Ctx, w *World, in *Inst, f *rm.Forest, when, opKind string) {
 	mp := in.MP
-	site := "mappartial." + map[string]string{"block": "Modify", "undo": "Undo", "verify": "Verify(remember)", "ingest": "Ingest", "prune": "Prune"}[opKind]
+	site := "mappartial." + map[string]string{"block": "Modify", "undo": "Undo", "verify": "Verify(remember)", "ingest": "Ingest", "prune": "Prune", "badmodify": "Modify(rejected)"}[opKind]
 	desc := fmt.Sprintf("%s: %s (N=%d, TotalRows=%d, %d remembered)", when, in.Name, f.N, mp.TotalRows, len(in.Rem))
 	trig := ""
 	if in.Name == "mappartial/fromroots" {
